@@ -116,6 +116,15 @@ def run(ctx):
     lp = need(wherep, calling(gp, attr="_pull", recv="self"), "self._pull(...)")
     ok, w = gp.assume({"master_branch": True}).always_before(mp, lp)
     ctx.check("R6-pull-master-first", wherep, ok, "pull into a bound branch updates the master before the local branch (a refusal by the master leaves the local branch untouched)", message="pull moves the local branch before the master accepted the revisions: a refused pull leaves the checkout diverged from its master", witness=gp.show_path(w) if w else None)
+    # git sibling (pulling from a git source into a bound Bazaar branch): same order
+    GBR = "breezy/git/branch.py"
+    fng, gg_, whereg_ = fn_cfg(ctx, GBR, "InterFromGitBranch.pull")
+    gmg = need(whereg_, calling(gg_, attr="get_master_branch"), "self.target.get_master_branch(...)")
+    mpg = need(whereg_, [i for i in calling(gg_, attr="pull") if any("master" in (call_recv(c) or "") for c in gg_.nodes[i].calls() if call_attr(c) == "pull")], "master_branch.pull(...)")
+    lpg = need(whereg_, calling(gg_, attr="_basic_pull", recv="self"), "self._basic_pull(...)")
+    gne = gg_.without_exc_edges()
+    early = sorted(set(lpg) & gne.reach(gmg, avoid=set(mpg)))
+    ctx.check("R6-pull-master-first", whereg_, not early and bool(set(lpg) & gne.reach(mpg)), "pull from a git source into a bound branch: once the master was looked up, the local _basic_pull is reached only through master_branch.pull(...)", construct="; ".join(gg_.nodes[i].text()[:60] for i in early), message="InterFromGitBranch.pull moves the local branch before the master has accepted the revisions: when the master refuses (it diverged from the git source) the pull fails but the bound branch is already ahead of its master")
     gm = need(wherep, calling(gp, attr="get_master_branch"), "get_master_branch")
     k2_unreachable(ctx, "R6-pull-local-skips-master", wherep, gp, {"local": True, "not local": False}, gm, "pull --local does not look the master up")
     fnq, gq, whereq = fn_cfg(ctx, BRF, "GenericInterBranch.push", roles={"master_branch": ("assign", "~self\\.target\\.get_master_branch\\(.*\\)"), "master_inter": ("assign", "InterBranch.get(self.source, {master_branch})")})
